@@ -5,6 +5,7 @@
 import datetime
 import itertools
 import json
+import os
 import warnings
 from abc import ABCMeta
 from enum import IntEnum
@@ -293,9 +294,16 @@ class BaseProject(object, metaclass=ABCMeta):
 
         self.perform_auto_task_while_absence_time = perform_auto_task_while_absence_time
 
+        # verification hook (inactive unless PDESY_VERIF=1 and an observer is attached)
+        _verif_obs = None
+        if os.environ.get("PDESY_VERIF") == "1":
+            _verif_obs = getattr(self, "_verif_observer", None)
+
         while True:
             # 0. Update status
             self.__update()
+            if _verif_obs is not None:
+                _verif_obs(self, "updated", None)
 
             # 1. Check finished or not
             state_list = list(map(lambda task: task.state, self.workflow.task_list))
@@ -332,6 +340,8 @@ class BaseProject(object, metaclass=ABCMeta):
             # Update state of task newly allocated workers and facilities (READY -> WORKING)
             self.workflow.check_state(self.time, BaseTaskState.WORKING)
             self.product.check_state()  # product should be checked after checking workflow state
+            if _verif_obs is not None:
+                _verif_obs(self, "allocated", working)
 
             # 3. Pay cost to all workers and facilities in this time
             if working:
@@ -348,9 +358,13 @@ class BaseProject(object, metaclass=ABCMeta):
                     self.__perform()
             elif perform_auto_task_while_absence_time:
                 self.workflow.perform(self.time, only_auto_task=True)
+            if _verif_obs is not None:
+                _verif_obs(self, "performed", working)
 
             # 5. Record
             self.__record(working=working)
+            if _verif_obs is not None:
+                _verif_obs(self, "recorded", working)
 
             # 6. Update time
             self.time = self.time + unit_time
